@@ -83,7 +83,9 @@ def list_case(seed):
             ordered = rng.random() < 0.5
             # numId 1 = ordered levels, 2 = bulleted levels, 3 = numStyleLink -> style -> numId 1 (ordered)
             if mech == "link" and ordered:
-                num = "3"
+                num = rng.choice(["3", "5"])      # 5: two numStyleLink hops (5 -> ListNum2 -> 3 -> ListNum -> 1)
+                if num == "5":
+                    feats.add("link-two-hops")
             else:
                 num = "1" if ordered else "2"
             numpr = el("w:numPr", [], [el("w:ilvl", [("w:val", str(d - 1))]), el("w:numId", [("w:val", num)])])
@@ -109,6 +111,8 @@ def list_case(seed):
         el("w:abstractNum", [("w:abstractNumId", "0")], lv(rng.choice(["decimal", "lowerRoman", None]), "o")),
         el("w:abstractNum", [("w:abstractNumId", "1")], lv("bullet", "b")),
         el("w:abstractNum", [("w:abstractNumId", "2")], [el("w:numStyleLink", [("w:val", "ListNum")])]),
+        el("w:abstractNum", [("w:abstractNumId", "3")], [el("w:numStyleLink", [("w:val", "ListNum2")])]),
+        el("w:num", [("w:numId", "5")], [el("w:abstractNumId", [("w:val", "3")])]),
         el("w:num", [("w:numId", "1")], [el("w:abstractNumId", [("w:val", "0")])]),
         el("w:num", [("w:numId", "2")], [el("w:abstractNumId", [("w:val", "1")])]),
         el("w:num", [("w:numId", "3")], [el("w:abstractNumId", [("w:val", "2")])])])
@@ -117,7 +121,8 @@ def list_case(seed):
                 [el("w:style", [("w:type", "paragraph"), ("w:styleId", "LS%s%d" % (t, i))], [el("w:name", [("w:val", "List %s %d" % (t, i))])]) for t in "ob" for i in range(6)] +
                 [el("w:style", [("w:type", "paragraph"), ("w:styleId", "Normal")], [el("w:name", [("w:val", "Normal")])]),
                  el("w:style", [("w:type", "paragraph"), ("w:styleId", "ListPara")], [el("w:name", [("w:val", "List Paragraph")])]),
-                 el("w:style", [("w:type", "numbering"), ("w:styleId", "ListNum")], [el("w:pPr", [], [el("w:numPr", [], [el("w:numId", [("w:val", "1")])])])])])
+                 el("w:style", [("w:type", "numbering"), ("w:styleId", "ListNum")], [el("w:pPr", [], [el("w:numPr", [], [el("w:numId", [("w:val", "1")])])])]),
+                 el("w:style", [("w:type", "numbering"), ("w:styleId", "ListNum2")], [el("w:pPr", [], [el("w:numPr", [], [el("w:numId", [("w:val", "3")])])])])])
     where = rng.choice(["body", "body", "cell", "note"])
     rels = []
     parts = [{"name": "word/styles.xml", "xml": styles}, {"name": "word/numbering.xml", "xml": numbering}]
